@@ -68,6 +68,7 @@ func c19Consts(r *core.Rng) []constSpec {
 	all := []constSpec{
 		{name: "CI", v: vint(int64(r.Intn(1000)))},
 		{name: "CF", raw: "1.5"},
+		{name: "CFI", raw: "2.0"},
 		{name: "CS", v: &val{kind: "str", s: "const"}},
 		{name: "CB", v: &val{kind: "bool", i: 1}},
 		{name: "CFN", raw: "func(x) { x + 1 }"},
@@ -206,6 +207,14 @@ func c19Attempt(kind string, c constSpec, n int64) (string, bool) {
 		}
 	case "slow-idx":
 		return fmt.Sprintf("%s[0] = slow(%d)", C, 7000+n), isArr
+	case "equal-other-type":
+		// numerically equal value of the other numeric type: not the same value (the type changes)
+		if k == "int" {
+			return C + " = " + c.literal() + ".0", true
+		}
+		if C == "CFI" {
+			return C + " = 2", true
+		}
 	case "same-value":
 		return C + " = " + c.literal(), k != "func" && k != "float" || k == "float"
 	}
@@ -214,7 +223,7 @@ func c19Attempt(kind string, c constSpec, n int64) (string, bool) {
 
 var c19Kinds = []string{"assign", "define", "incr-post", "incr-pre", "decr-post", "decr-pre", "idx-assign", "dot-assign", "new-key", "del-elem", "del-elem-idx",
 	"loop-int", "loop-list", "param", "param-func", "nested-assign", "nested-define", "nested-idx", "loop-assign", "self-append", "catch-assign",
-	"alias-idx", "callee-mutates", "nested-elem", "slow-idx", "same-value"}
+	"alias-idx", "callee-mutates", "nested-elem", "slow-idx", "same-value", "equal-other-type"}
 
 func (c19) Generate(r *core.Rng, run int, tier string) *core.History {
 	h := &core.History{Cfg: map[string]int64{"maxdepth": 1000}, Flags: map[string]bool{}, Strs: map[string]string{}}
